@@ -98,7 +98,7 @@ fn main() {
             let cfg = coord::CheckCfg {
                 prop: prop.clone(), tier, seed, workers, evaluations,
                 wall_cap: std::time::Duration::from_secs(wall),
-                cpu_budget: if tier == Tier::Quick { 20 } else { 120 },
+                cpu_budget: std::env::var("ABYSIM_CPU").ok().and_then(|s| s.parse().ok()).unwrap_or(if tier == Tier::Quick { 20 } else { 120 }),
                 write_evidence: true, quiet: false, flavour: String::new(),
             };
             let mut r = coord::run_check(&cfg);
